@@ -399,22 +399,27 @@ class Interp:
         return fails
 
     def _resync(self):
-        """After a reported discrepancy continue from the registry as it is (avoids cascades)."""
+        """After a reported discrepancy continue from a state the model can describe (avoids
+        cascades): shipped specs are put back, entries under keys that are not canonical well-formed
+        ids are dropped, every other entry is taken over into the model as it is."""
         R = self.reg._REGISTRY
+        for k, sp0 in self.snapshot.items():
+            R[k] = sp0
         self.model = {}
-        for k, sp in R.items():
-            if k in self.snapshot and R[k] is self.snapshot[k]:
+        for k in list(R):
+            if k in self.snapshot:
                 continue
+            sp, p = R[k], o_parse(k)
             try:
                 kw = json.loads(json.dumps(sp.kwargs))
-            except (TypeError, ValueError):
-                kw = {}
-            p = o_parse(k)
-            self.model[k] = {"entry": sp.entry_point, "kwargs": kw,
-                             "name": p[1] if p[0] == "valid" else None, "n": p[2] if p[0] == "valid" else None}
-        for k in self.snapshot:
-            if k not in R or R[k] is not self.snapshot[k]:
-                R[k] = self.snapshot[k]
+                ok = p[0] == "valid" and o_canon(p[1], p[2]) == k and isinstance(sp.kwargs, dict) \
+                    and _is_pair((sp.name, sp.version), p[1], p[2]) is None and sp.id == k
+            except (TypeError, ValueError, AttributeError):
+                ok = False
+            if not ok:
+                del R[k]
+                continue
+            self.model[k] = {"entry": sp.entry_point, "kwargs": kw, "name": p[1], "n": p[2]}
 
     # -- operations
     def apply(self, op) -> list:
